@@ -66,6 +66,19 @@ def fn_pair_bwd(u, v):
     return (u + v) / 2, (u - v) / 2
 
 
+class HarnessUnknownState(S.SubsetState):
+    """A selection class glue knows nothing about (no saver of its own): saving must refuse loudly."""
+
+    def __init__(self, att=None):
+        self.att = att
+
+    def to_mask(self, data, view=None):
+        return np.ones(data.shape, dtype=bool) if view is None else np.ones(data.shape, dtype=bool)[view]
+
+    def copy(self):
+        return HarnessUnknownState(self.att)
+
+
 FUNCS = {"double": fn_double, "half": fn_half, "sum2": fn_sum2, "pfwd": fn_pair_fwd, "pbwd": fn_pair_bwd,
          "identity": LH.identity, "volume": LH.lengths_to_volume, None: None}
 
@@ -461,6 +474,9 @@ def build_state(W, s):
     elif k == "parsed":
         refs = {t: W.cid(d, c) for t, d, c in s[2]}
         out = ParsedSubsetState(ParsedCommand(s[1], refs))
+    elif k == "unknown-subclass":
+        out = HarnessUnknownState()
+        W.used.add("tag:unknown-subclass")
     else:
         raise ValueError(k)
     return W.use(out)
@@ -478,6 +494,10 @@ def build_link(W, l):
         to = W.cid(*l[2])
         link = ComponentLink(frm, to, using=FUNCS[l[3]], inverse=FUNCS[l[4]] if len(l) > 4 else None)
         dc.add_link(W.use(link))
+    elif k == "clinkp":
+        frm = [W.cid(d, c) for d, c in l[1]]
+        to = W.cid(*l[2])
+        dc.add_link(W.use(ComponentLink(frm, to, using=W.use(LH.PartialResult(fn_pair_fwd, l[3])))))
     elif k == "same":
         dc.add_link(W.use(LH.LinkSame(W.cid(l[1], l[2]), W.cid(l[3], l[4]))))
     elif k == "twoway":
@@ -535,6 +555,12 @@ def build_session(case):
         if len(g) > 2 and g[2] is not None:
             make_style(grp, g[2])
         W.keep.append(grp)
+    for d in W.data:
+        for cid in d.components:
+            comp = d.get_component(cid)
+            W.used.add(type(comp).__name__)
+            if isinstance(comp, DerivedComponent):
+                W.used.add(type(comp.link).__name__)
     return W
 
 
@@ -627,7 +653,7 @@ def snapshot(dc, full_access=False):
             joins.append([datasets.index(other) if other in datasets else "out",
                           [tok(c.label) for c in c1], [tok(c.label) for c in c2]])
         joins.sort(key=repr)
-        out.append([["label", tok(d.label)], ["shape"] + list(d.shape), ["comps"] + comps,
+        out.append([["label", tok(d.label)], ["uuid", tok(str(d.uuid))], ["shape"] + list(d.shape), ["comps"] + comps,
                     ["main"] + [tok(c.label) for c in d.main_components],
                     ["derived"] + [tok(c.label) for c in d.derived_components],
                     ["pix"] + [tok(c.label) for c in d.pixel_component_ids],
